@@ -765,6 +765,291 @@ theorem fileLaid_of_layout (c : Cfg) (h0 : 0 < c.metaSz) (hb0 : 0 < c.blockSize)
               show pre.length + 1 + r.length = pre.length + (r.length + 1) by omega]; exact hcount)
       simpa [Nat.succ_mul] using this
 
+/-! ### batches of several one-unit entries: where the entries land, and what that does to the layout -/
+
+/-- the layout facts about topic `t`'s current block that placing needs -/
+structure CurBlock (c : Cfg) (L : List LBlock) (t : Topic) (bo off : Nat) : Prop where
+  ex : ∃ pre b post, L = pre ++ b :: post ∧ b.topic = t ∧ b.off = bo ∧ totalRaw c b.es = off ∧ ∀ x ∈ post, x.topic ≠ t
+
+theorem layout_placeAll (c : Cfg) (hc : CfgOK c) (t : Topic) (ps : List Pay) :
+    ∀ (cells : List Cell) (L : List LBlock) (bo off : Nat),
+      LayBlocks c cells 0 L → NoStray c cells L → CurBlock c L t bo off →
+      (∀ p ∈ ps, c.metaSz + p.len ≤ c.blockSize) →
+      ∃ L', LayBlocks c (cellsAfter c t cells (placeAll c ps bo off (L.length * c.blockSize)).1) 0 L' ∧
+        NoStray c (cellsAfter c t cells (placeAll c ps bo off (L.length * c.blockSize)).1) L' ∧
+        CurBlock c L' t (placeAll c ps bo off (L.length * c.blockSize)).2.1 (placeAll c ps bo off (L.length * c.blockSize)).2.2.1 ∧
+        L'.length * c.blockSize = (placeAll c ps bo off (L.length * c.blockSize)).2.2.2 ∧
+        L'.length ≤ L.length + ps.length ∧
+        entriesOf t L' = entriesOf t L ++ ps ∧
+        (∀ t', t' ≠ t → entriesOf t' L' = entriesOf t' L) ∧
+        (∀ x ∈ L, x.topic ≠ t → x ∈ L') ∧ (∀ x ∈ L', x.topic ≠ t → x ∈ L) ∧
+        (∀ x ∈ L', x.topic = t → x.off ≤ (placeAll c ps bo off (L.length * c.blockSize)).2.1) := by
+  induction ps with
+  | nil =>
+    intro cells L bo off hl hs hcur _
+    refine ⟨L, hl, hs, hcur, rfl, by simp, by simp, fun _ _ => rfl, fun x hx _ => hx, fun x hx _ => hx, ?_⟩
+    -- the current block is the last block of the topic
+    obtain ⟨pre, b, post, hL, hbt, hbo, _, hpost⟩ := hcur.ex
+    intro x hx hxt
+    subst hL
+    rw [layBlocks_append] at hl
+    simp only [Nat.zero_add, LayBlocks] at hl
+    rw [List.mem_append, List.mem_cons] at hx
+    rcases hx with hx | hx | hx
+    · have := layBlocks_off c cells pre 0 hl.1 x hx
+      show x.off ≤ bo
+      rw [← hbo, hl.2.1]; omega
+    · subst hx; show x.off ≤ bo; rw [hbo]; exact Nat.le_refl _
+    · exact absurd hxt (hpost x hx)
+  | cons p r ih =>
+    intro cells L bo off hl hs hcur hfit
+    have hp := hfit p List.mem_cons_self
+    have hr : ∀ q ∈ r, c.metaSz + q.len ≤ c.blockSize := fun q hq => hfit q (List.mem_cons_of_mem _ hq)
+    obtain ⟨pre, b, post, hL, hbt, hbo, hbtot, hpost⟩ := hcur.ex
+    unfold placeAll
+    by_cases hroom : off + (c.metaSz + p.len) ≤ c.blockSize
+    · -- the entry goes behind the entries of the current block
+      simp only [hroom, if_true]
+      subst hL
+      obtain ⟨hclob, hlay, hstray⟩ := layout_extend_block c hc.meta_pos cells pre post b p hl hs (by rw [hbtot]; exact hroom)
+      have hcell : cellsAfter c t cells ((bo, off, p) :: (placeAll c r bo (off + (c.metaSz + p.len)) ((pre ++ b :: post).length * c.blockSize)).1) =
+          cellsAfter c t (cells ++ [⟨b.off + totalRaw c b.es, b.topic, p⟩])
+            (placeAll c r bo (off + (c.metaSz + p.len)) ((pre ++ b :: post).length * c.blockSize)).1 := by
+        unfold cellsAfter
+        simp only [List.foldl_cons]
+        rw [← hbo, ← hbtot, hbt] at *
+        rw [hclob]
+      have hlen : (pre ++ { b with rest := b.rest ++ [p] } :: post).length = (pre ++ b :: post).length := by simp
+      obtain ⟨L', h1, h2, h3, h4, h5, h6, h7, h8, h9, h10⟩ := ih (cells ++ [⟨b.off + totalRaw c b.es, b.topic, p⟩])
+        (pre ++ { b with rest := b.rest ++ [p] } :: post) bo (off + (c.metaSz + p.len)) hlay hstray
+        ⟨⟨pre, _, post, rfl, hbt, hbo, by
+          show totalRaw c (b.es ++ [p]) = _
+          rw [totalRaw_append, hbtot]; simp [totalRaw], hpost⟩⟩ hr
+      rw [hlen] at h1 h2 h3 h4 h5 h10
+      rw [hcell]
+      refine ⟨L', h1, h2, h3, h4, by simp only [List.length_cons]; omega, ?_, ?_, ?_, ?_, h10⟩
+      · rw [h6]
+        rw [entriesOf_append, entriesOf_append]
+        rw [show ({ b with rest := b.rest ++ [p] } :: post : List LBlock) = [{ b with rest := b.rest ++ [p] }] ++ post from rfl,
+          show (b :: post : List LBlock) = [b] ++ post from rfl, entriesOf_append, entriesOf_append,
+          entriesOf_none t post hpost, entriesOf_single, entriesOf_single]
+        simp only [hbt, if_true, List.append_nil]
+        show entriesOf t pre ++ (b.es ++ [p]) ++ r = entriesOf t pre ++ b.es ++ p :: r
+        simp
+      · intro t' ht'
+        rw [h7 t' ht']
+        have hne : ¬ (b.topic = t') := by rw [hbt]; exact fun e => ht' e.symm
+        rw [entriesOf_append, entriesOf_append]
+        rw [show ({ b with rest := b.rest ++ [p] } :: post : List LBlock) = [{ b with rest := b.rest ++ [p] }] ++ post from rfl,
+          show (b :: post : List LBlock) = [b] ++ post from rfl, entriesOf_append, entriesOf_append,
+          entriesOf_single, entriesOf_single]
+        simp only [hne, if_false]
+      · intro x hx hxt
+        apply h8 x _ hxt
+        rw [List.mem_append, List.mem_cons] at hx ⊢
+        rcases hx with hx | hx | hx
+        · exact Or.inl hx
+        · subst hx; exact absurd hbt hxt
+        · exact Or.inr (Or.inr hx)
+      · intro x hx hxt
+        have := h9 x hx hxt
+        rw [List.mem_append, List.mem_cons] at this ⊢
+        rcases this with hx' | hx' | hx'
+        · exact Or.inl hx'
+        · subst hx'; exact absurd hbt hxt
+        · exact Or.inr (Or.inr hx')
+    · -- a new block at the end of the allocated region
+      simp only [hroom, if_false]
+      obtain ⟨hclob, hlay, hstray⟩ := layout_new_block c hc.meta_pos cells L t p hl hs hp
+      have hcell : cellsAfter c t cells ((L.length * c.blockSize, 0, p) ::
+            (placeAll c r (L.length * c.blockSize) (c.metaSz + p.len) (L.length * c.blockSize + c.blockSize)).1) =
+          cellsAfter c t (cells ++ [⟨L.length * c.blockSize, t, p⟩])
+            (placeAll c r (L.length * c.blockSize) (c.metaSz + p.len) (L.length * c.blockSize + c.blockSize)).1 := by
+        unfold cellsAfter
+        simp only [List.foldl_cons, Nat.add_zero]
+        rw [hclob]
+      have hlen : (L ++ [(⟨L.length * c.blockSize, t, p, []⟩ : LBlock)]).length * c.blockSize = L.length * c.blockSize + c.blockSize := by
+        rw [List.length_append, List.length_singleton, Nat.succ_mul]
+      obtain ⟨L', h1, h2, h3, h4, h5, h6, h7, h8, h9, h10⟩ := ih (cells ++ [⟨L.length * c.blockSize, t, p⟩])
+        (L ++ [⟨L.length * c.blockSize, t, p, []⟩]) (L.length * c.blockSize) (c.metaSz + p.len) hlay hstray
+        ⟨⟨L, _, [], rfl, rfl, rfl, by simp [totalRaw, LBlock.es], by simp⟩⟩ hr
+      rw [hlen] at h1 h2 h3 h4 h10
+      rw [hcell]
+      have hlen1 : (L ++ [(⟨L.length * c.blockSize, t, p, []⟩ : LBlock)]).length = L.length + 1 := by simp
+      rw [hlen1] at h5
+      refine ⟨L', h1, h2, h3, h4, by simp only [List.length_cons]; omega, ?_, ?_, ?_, ?_, h10⟩
+      · rw [h6, entriesOf_append, entriesOf_single]; simp [LBlock.es]
+      · intro t' ht'
+        rw [h7 t' ht', entriesOf_append, entriesOf_single]
+        have : ¬ (t = t') := fun e => ht' e.symm
+        simp [this]
+      · intro x hx hxt
+        exact h8 x (List.mem_append_left _ hx) hxt
+      · intro x hx hxt
+        have := h9 x hx hxt
+        rw [List.mem_append] at this
+        rcases this with hx' | hx'
+        · exact hx'
+        · simp only [List.mem_singleton] at hx'; subst hx'; exact absurd rfl hxt
+
+/-- the same when the topic has no block yet: the first entry opens a block at the end of the allocated region -/
+theorem layout_placeAll_fresh (c : Cfg) (hc : CfgOK c) (t : Topic) (p0 : Pay) (r : List Pay)
+    (cells : List Cell) (L : List LBlock)
+    (hl : LayBlocks c cells 0 L) (hs : NoStray c cells L) (hnone : ∀ x ∈ L, x.topic ≠ t)
+    (hfit : ∀ p ∈ p0 :: r, c.metaSz + p.len ≤ c.blockSize) :
+    ∃ L', LayBlocks c (cellsAfter c t cells (placeAll c (p0 :: r) (L.length * c.blockSize) 0 (L.length * c.blockSize + c.blockSize)).1) 0 L' ∧
+      NoStray c (cellsAfter c t cells (placeAll c (p0 :: r) (L.length * c.blockSize) 0 (L.length * c.blockSize + c.blockSize)).1) L' ∧
+      CurBlock c L' t (placeAll c (p0 :: r) (L.length * c.blockSize) 0 (L.length * c.blockSize + c.blockSize)).2.1
+        (placeAll c (p0 :: r) (L.length * c.blockSize) 0 (L.length * c.blockSize + c.blockSize)).2.2.1 ∧
+      L'.length * c.blockSize = (placeAll c (p0 :: r) (L.length * c.blockSize) 0 (L.length * c.blockSize + c.blockSize)).2.2.2 ∧
+      L'.length ≤ L.length + (p0 :: r).length ∧
+      entriesOf t L' = entriesOf t L ++ (p0 :: r) ∧
+      (∀ t', t' ≠ t → entriesOf t' L' = entriesOf t' L) ∧
+      (∀ x ∈ L, x.topic ≠ t → x ∈ L') ∧ (∀ x ∈ L', x.topic ≠ t → x ∈ L) ∧
+      (∀ x ∈ L', x.topic = t → x.off ≤ (placeAll c (p0 :: r) (L.length * c.blockSize) 0 (L.length * c.blockSize + c.blockSize)).2.1) := by
+  have hp := hfit p0 List.mem_cons_self
+  have hr : ∀ q ∈ r, c.metaSz + q.len ≤ c.blockSize := fun q hq => hfit q (List.mem_cons_of_mem _ hq)
+  have hplace : placeAll c (p0 :: r) (L.length * c.blockSize) 0 (L.length * c.blockSize + c.blockSize) =
+      ((L.length * c.blockSize, 0, p0) :: (placeAll c r (L.length * c.blockSize) (c.metaSz + p0.len) (L.length * c.blockSize + c.blockSize)).1,
+        (placeAll c r (L.length * c.blockSize) (c.metaSz + p0.len) (L.length * c.blockSize + c.blockSize)).2) := by
+    simp only [placeAll, Nat.zero_add, hp, if_true]
+  rw [hplace]
+  obtain ⟨hclob, hlay, hstray⟩ := layout_new_block c hc.meta_pos cells L t p0 hl hs hp
+  have hcell : cellsAfter c t cells ((L.length * c.blockSize, 0, p0) ::
+        (placeAll c r (L.length * c.blockSize) (c.metaSz + p0.len) (L.length * c.blockSize + c.blockSize)).1) =
+      cellsAfter c t (cells ++ [⟨L.length * c.blockSize, t, p0⟩])
+        (placeAll c r (L.length * c.blockSize) (c.metaSz + p0.len) (L.length * c.blockSize + c.blockSize)).1 := by
+    unfold cellsAfter
+    simp only [List.foldl_cons, Nat.add_zero]
+    rw [hclob]
+  have hlen : (L ++ [(⟨L.length * c.blockSize, t, p0, []⟩ : LBlock)]).length * c.blockSize = L.length * c.blockSize + c.blockSize := by
+    rw [List.length_append, List.length_singleton, Nat.succ_mul]
+  obtain ⟨L', h1, h2, h3, h4, h5, h6, h7, h8, h9, h10⟩ := layout_placeAll c hc t r (cells ++ [⟨L.length * c.blockSize, t, p0⟩])
+    (L ++ [⟨L.length * c.blockSize, t, p0, []⟩]) (L.length * c.blockSize) (c.metaSz + p0.len) hlay hstray
+    ⟨⟨L, _, [], rfl, rfl, rfl, by simp [totalRaw, LBlock.es], by simp⟩⟩ hr
+  rw [hlen] at h1 h2 h3 h4 h10
+  have hlen1 : (L ++ [(⟨L.length * c.blockSize, t, p0, []⟩ : LBlock)]).length = L.length + 1 := by simp
+  rw [hlen1] at h5
+  simp only
+  rw [hcell]
+  refine ⟨L', h1, h2, h3, h4, by simp only [List.length_cons]; omega, ?_, ?_, ?_, ?_, h10⟩
+  · rw [h6, entriesOf_append, entriesOf_single]; simp [LBlock.es]
+  · intro t' ht'
+    rw [h7 t' ht', entriesOf_append, entriesOf_single]
+    have : ¬ (t = t') := fun e => ht' e.symm
+    simp [this]
+  · intro x hx hxt
+    exact h8 x (List.mem_append_left _ hx) hxt
+  · intro x hx hxt
+    have := h9 x hx hxt
+    rw [List.mem_append] at this
+    rcases this with hx' | hx'
+    · exact hx'
+    · simp only [List.mem_singleton] at hx'; subst hx'; exact absurd rfl hxt
+
+theorem wproj_get (m : AMap Topic Writer) (t : Topic) (x : Nat × Nat × Nat × Nat × Bool)
+    (h : (m.get? t).map wproj = some x) : ∃ w, m.get? t = some w ∧ wproj w = x := by
+  cases hg : m.get? t with
+  | none => rw [hg] at h; simp at h
+  | some w => rw [hg] at h; exact ⟨w, rfl, by simpa using h⟩
+
+/-- **A friendly batch keeps the disk well-formed** and adds exactly its entries, in order, to its topic's entries. -/
+theorem diskInv_batch (c : Cfg) (hc : CfgOK c) (p : Proc) (i : Inst) (f : Nat) (L : List LBlock) (t : Topic) (ps : List Pay)
+    (h : DiskInv c p i f L) (hlong : t.long = false) (hne : ps ≠ [])
+    (hfit : ∀ q ∈ ps, c.metaSz + q.len ≤ c.blockSize) (hcap : ps.length ≤ c.cap)
+    (hbytes : (ps.map fun x => c.metaSz + x.len).sum ≤ c.maxBatchBytes)
+    (hroom : (L.length + (ps.length + 1)) * c.blockSize ≤ c.fileSize) :
+    (batchAppendForTopic c p i t ps).2.2 = .ok ∧
+    ∃ L', DiskInv c (batchAppendForTopic c p i t ps).1 (batchAppendForTopic c p i t ps).2.1 f L' ∧
+      L'.length ≤ L.length + ps.length ∧
+      entriesOf t L' = entriesOf t L ++ ps ∧ ∀ t', t' ≠ t → entriesOf t' L' = entriesOf t' L := by
+  have hwt := h.writers t
+  have hroom' : i.allocOff + (ps.length + 1) * c.blockSize ≤ c.fileSize := by
+    rw [h.alloc, ← Nat.add_mul]; exact hroom
+  obtain ⟨hok, hfile, hlen, bo, off, aoff0, hstart, hcells, halloc, hwr⟩ :=
+    batch_friendly c p i t ps hc.meta_pos hc.bs_pos hc.bs_le hlong hne hfit hcap hbytes hroom'
+      (by rw [h.file]; exact h.inrange)
+      (by
+        intro w hw
+        rw [hw] at hwt
+        obtain ⟨h1, h2, h3, b, hb, _, _, h6, _⟩ := hwt
+        have := (layBlocks_off c _ L 0 h.lay b hb).2.2
+        exact ⟨h1, h2, by rw [h3, h.file], by rw [h6]; exact this⟩)
+  refine ⟨hok, ?_⟩
+  generalize batchAppendForTopic c p i t ps = r at hfile hlen hcells halloc hwr ⊢
+  obtain ⟨p', i', out⟩ := r
+  simp only at hfile hlen hcells halloc hwr ⊢
+  rw [h.file] at hcells hwr
+  -- the layout after the batch
+  have hlay : ∃ L', LayBlocks c (fileCells p'.files f) 0 L' ∧ NoStray c (fileCells p'.files f) L' ∧
+      CurBlock c L' t (placeAll c ps bo off aoff0).2.1 (placeAll c ps bo off aoff0).2.2.1 ∧
+      L'.length * c.blockSize = (placeAll c ps bo off aoff0).2.2.2 ∧ L'.length ≤ L.length + ps.length ∧
+      entriesOf t L' = entriesOf t L ++ ps ∧ (∀ t', t' ≠ t → entriesOf t' L' = entriesOf t' L) ∧
+      (∀ x ∈ L, x.topic ≠ t → x ∈ L') ∧ (∀ x ∈ L', x.topic ≠ t → x ∈ L) ∧
+      (∀ x ∈ L', x.topic = t → x.off ≤ (placeAll c ps bo off aoff0).2.1) := by
+    rw [hcells]
+    rcases hstart with ⟨hnone, hbo, hoff, haoff⟩ | ⟨w, hw, hbo, hoff, haoff⟩
+    · -- no writer yet
+      rw [hnone] at hwt
+      obtain ⟨p0, r, hps⟩ : ∃ p0 r, ps = p0 :: r := by
+        cases ps with
+        | nil => exact absurd rfl hne
+        | cons a b => exact ⟨a, b, rfl⟩
+      subst hps
+      rw [hbo, hoff, haoff, h.alloc]
+      exact layout_placeAll_fresh c hc t p0 r _ L h.lay h.stray hwt hfit
+    · rw [hw] at hwt
+      obtain ⟨_, _, _, b, hb, hbt, hboff, hbtot, hblast⟩ := hwt
+      obtain ⟨pre, post, hL⟩ := List.append_of_mem hb
+      have hpostt : ∀ x ∈ post, x.topic ≠ t := by
+        intro x hx hxt
+        have hl := h.lay
+        rw [hL, layBlocks_append] at hl
+        simp only [Nat.zero_add, LayBlocks] at hl
+        have h2 := (layBlocks_off c _ post _ hl.2.2.2.2 x hx).1
+        have h1 := hblast x (by rw [hL]; exact List.mem_append_right _ (List.mem_cons_of_mem _ hx)) hxt
+        have := hc.bs_pos
+        rw [hl.2.1] at h1; omega
+      rw [hbo, hoff, haoff, h.alloc, hboff, hbtot]
+      exact layout_placeAll c hc t ps _ L b.off (totalRaw c b.es) h.lay h.stray
+        ⟨⟨pre, b, post, hL, hbt, rfl, rfl, hpostt⟩⟩ hfit
+  obtain ⟨L', h1, h2, h3, h4, h5, h6, h7, h8, h9, h10⟩ := hlay
+  refine ⟨L', ⟨hfile.trans h.file, by rw [hlen]; exact h.inrange, by rw [halloc, h4], h1, h2, ?_⟩, h5, h6, h7⟩
+  intro t'
+  have hw' := hwr t'
+  by_cases ht : t = t'
+  · subst ht
+    simp only [if_true] at hw'
+    obtain ⟨w', hg, hp⟩ := wproj_get _ _ _ hw'
+    rw [hg]
+    simp only [wproj, Prod.mk.injEq] at hp
+    obtain ⟨e1, e2, e3, e4, e5⟩ := hp
+    obtain ⟨pre, b, post, hL', hbt, hbo', hbtot', _⟩ := h3.ex
+    refine ⟨e5, e3, e1, b, by rw [hL']; exact List.mem_append_right _ List.mem_cons_self, hbt, by rw [e2, hbo'], by rw [e4, hbtot'], by rw [hbo']; exact h10⟩
+  · simp only [ht, if_false] at hw'
+    have hold := h.writers t'
+    cases hg : i.writers.get? t' with
+    | none =>
+      rw [hg] at hw' hold
+      have : i'.writers.get? t' = none := by
+        cases hg' : i'.writers.get? t' with
+        | none => rfl
+        | some w2 => rw [hg'] at hw'; simp at hw'
+      rw [this]
+      intro x hx hxt
+      exact hold x (h9 x hx (by rw [hxt]; exact fun e => ht e.symm)) hxt
+    | some w2 =>
+      rw [hg] at hw' hold
+      obtain ⟨w2', hg', hp⟩ := wproj_get _ _ _ hw'
+      rw [hg']
+      simp only [wproj, Prod.mk.injEq] at hp
+      obtain ⟨e1, e2, e3, e4, e5⟩ := hp
+      obtain ⟨a1, a2, a3, b2, hb2, a4, a5, a6, a7⟩ := hold
+      refine ⟨by rw [e5]; exact a1, by rw [e3]; exact a2, by rw [e1]; exact a3, b2,
+        h8 b2 hb2 (by rw [a4]; exact fun e => ht e.symm), a4, by rw [e2]; exact a5, by rw [e4]; exact a6, ?_⟩
+      intro x hx hxt
+      exact a7 x (h9 x hx (by rw [hxt]; exact fun e => ht e.symm)) hxt
+
 /-- a sequence of single-entry appends -/
 def appendAll (c : Cfg) : Proc → Inst → List (Topic × Pay) → Proc × Inst
   | p, i, [] => (p, i)
@@ -819,7 +1104,7 @@ theorem C06_friendly_appends_are_recovered (c : Cfg) (hc : CfgOK c) (p : Proc) (
   have hlaid := fileLaid_of_layout c hc.meta_pos hc.bs_pos _ L [] (by simpa using hL.lay) (by simpa using hL.stray)
     (by
       simp only [List.length_nil, Nat.zero_add]
-      exact Nat.le_trans (Nat.mul_le_mul_right _ (by simpa using hlen)) hroom)
+      exact Nat.le_trans (Nat.mul_le_mul_right _ (by simp at hlen; omega)) hroom)
   exact C06_scan_recovers_laid_file c hc.meta_pos f _ L 0 fuel s (by simpa using hlaid) hfuel
 
 /-! the same, stated on programs of the engine model (`Eng.step`), the vocabulary of the correspondence runs -/
@@ -879,7 +1164,7 @@ theorem C06_friendly_append_programs_are_recovered (c : Cfg) (hc : CfgOK c) (p :
   have hlaid := fileLaid_of_layout c hc.meta_pos hc.bs_pos _ L [] (by simpa using hL.lay) (by simpa using hL.stray)
     (by
       simp only [List.length_nil, Nat.zero_add]
-      exact Nat.le_trans (Nat.mul_le_mul_right _ (by simpa using hlen)) hroom)
+      exact Nat.le_trans (Nat.mul_le_mul_right _ (by simp at hlen; omega)) hroom)
   exact C06_scan_recovers_laid_file c hc.meta_pos f _ L 0 fuel s (by simpa using hlaid) hfuel
 
 /-! programs with reads in between: reads of either API, consuming or not, and counts leave the layout alone -/
@@ -888,6 +1173,8 @@ inductive FOp where
   | append (t : Topic) (p : Pay)
   /-- `batch_append_for_topic` with one entry -/
   | batch1 (t : Topic) (p : Pay)
+  /-- `batch_append_for_topic` with any number of entries -/
+  | batch (t : Topic) (ps : List Pay)
   | next (t : Topic) (cp : Bool)
   | bread (t : Topic) (maxBytes : Nat) (cp : Bool) (start : Option Nat)
   | count (t : Topic)
@@ -895,6 +1182,7 @@ inductive FOp where
 def FOp.toOp : FOp → Op
   | .append t p => .append t p
   | .batch1 t p => .batch t [p]
+  | .batch t ps => .batch t ps
   | .next t cp => .next t cp
   | .bread t m cp st => .bread t m cp st
   | .count t => .count t
@@ -903,7 +1191,33 @@ def appendsOf : List FOp → List (Topic × Pay)
   | [] => []
   | .append t p :: r => (t, p) :: appendsOf r
   | .batch1 t p :: r => (t, p) :: appendsOf r
+  | .batch t ps :: r => ps.map (fun x => (t, x)) ++ appendsOf r
   | _ :: r => appendsOf r
+
+/-- what the batches of a program have to satisfy: non-empty, within the entry-count and byte limits -/
+def BatchesOK (c : Cfg) (ops : List FOp) : Prop :=
+  ∀ t ps, FOp.batch t ps ∈ ops →
+    ps ≠ [] ∧ ps.length ≤ c.cap ∧ (ps.map fun x => c.metaSz + x.len).sum ≤ c.maxBatchBytes
+
+/-- room, in blocks, the planner of a general batch wants beyond what the batch ends up using -/
+def slack : List FOp → Nat
+  | [] => 0
+  | .batch _ _ :: _ => 1
+  | _ :: r => slack r
+
+theorem filter_map_same (t : Topic) (ps : List Pay) :
+    (((ps.map fun x => (t, x)).filter (fun x => decide (x.1 = t))).map (·.2)) = ps := by
+  induction ps with
+  | nil => rfl
+  | cons a b ih => simp only [List.map_cons, List.filter_cons, decide_true, if_true]; rw [ih]
+
+theorem slack_le (op : FOp) (r : List FOp) : slack r ≤ slack (op :: r) := by
+  have h1 : ∀ l, slack l ≤ 1 := by
+    intro l
+    induction l with
+    | nil => simp [slack]
+    | cons a b ih => cases a <;> simp [slack, ih]
+  cases op <;> simp [slack, h1]
 
 def execF (c : Cfg) : Proc → List FOp → Proc
   | p, [] => p
@@ -918,29 +1232,32 @@ theorem diskInv_of_same (c : Cfg) (p p' : Proc) (i i' : Inst) (f : Nat) (L : Lis
 
 theorem diskInv_execF (c : Cfg) (hc : CfgOK c) (hmb : c.blockSize ≤ c.maxBatchBytes) (f : Nat) (ops : List FOp) :
     ∀ (p : Proc) (i : Inst) (L : List LBlock), p.inst = some i → DiskInv c p i f L → Friendly c (appendsOf ops) →
-      (L.length + (appendsOf ops).length) * c.blockSize ≤ c.fileSize →
+      BatchesOK c ops →
+      (L.length + (appendsOf ops).length + slack ops) * c.blockSize ≤ c.fileSize →
       ∃ i' L', (execF c p ops).inst = some i' ∧ DiskInv c (execF c p ops) i' f L' ∧
         L'.length ≤ L.length + (appendsOf ops).length ∧
         ∀ t, entriesOf t L' = entriesOf t L ++ ((appendsOf ops).filter (fun x => x.1 = t)).map (·.2) := by
   induction ops with
-  | nil => intro p i L hi h _ _; exact ⟨i, L, hi, h, by simp [appendsOf], by simp [appendsOf]⟩
+  | nil => intro p i L hi h _ _ _; exact ⟨i, L, hi, h, by simp [appendsOf], by simp [appendsOf]⟩
   | cons op r ih =>
-    intro p i L hi h hf hroom
+    intro p i L hi h hf hbok hroom
+    have hbok' : BatchesOK c r := fun t ps hm => hbok t ps (List.mem_cons_of_mem _ hm)
+    have hsl := slack_le op r
     cases op with
     | append t pay =>
       simp only [appendsOf] at hf hroom ⊢
       have hfo := hf (t, pay) List.mem_cons_self
       have hroom1 : (L.length + 1) * c.blockSize ≤ c.fileSize :=
-        Nat.le_trans (Nat.mul_le_mul_right _ (by simp)) hroom
+        Nat.le_trans (Nat.mul_le_mul_right _ (by simp only [List.length_cons]; omega)) hroom
       obtain ⟨_, L1, h1, hlen1, hent, hoth⟩ := diskInv_append c hc p i f L t pay h hfo.1 hfo.2 hroom1
       have hstep : (Eng.step c p (FOp.append t pay).toOp).1 =
           { (appendForTopic c p i t pay).1 with inst := some (appendForTopic c p i t pay).2.1 } := by
         simp only [FOp.toOp, Eng.step, withInst, hi]
-      have hroom2 : (L1.length + (appendsOf r).length) * c.blockSize ≤ c.fileSize :=
+      have hroom2 : (L1.length + (appendsOf r).length + slack r) * c.blockSize ≤ c.fileSize :=
         Nat.le_trans (Nat.mul_le_mul_right _ (by simp only [List.length_cons] at *; omega)) hroom
       obtain ⟨i2, L2, hi2, h2, hlen2, hent2⟩ := ih (Eng.step c p (FOp.append t pay).toOp).1 (appendForTopic c p i t pay).2.1 L1
         (by rw [hstep]) (by rw [hstep]; exact diskInv_inst_irrelevant c _ _ _ f L1 h1)
-        (fun x hx => hf x (List.mem_cons_of_mem _ hx)) hroom2
+        (fun x hx => hf x (List.mem_cons_of_mem _ hx)) hbok' hroom2
       refine ⟨i2, L2, hi2, h2, by simp only [List.length_cons]; omega, ?_⟩
       intro t0
       rw [hent2 t0]
@@ -951,22 +1268,57 @@ theorem diskInv_execF (c : Cfg) (hc : CfgOK c) (hmb : c.blockSize ≤ c.maxBatch
       simp only [appendsOf] at hf hroom ⊢
       have hfo := hf (t, pay) List.mem_cons_self
       have hroom1 : (L.length + 1) * c.blockSize ≤ c.fileSize :=
-        Nat.le_trans (Nat.mul_le_mul_right _ (by simp)) hroom
+        Nat.le_trans (Nat.mul_le_mul_right _ (by simp only [List.length_cons]; omega)) hroom
       obtain ⟨_, L1, h1, hlen1, hent, hoth⟩ := diskInv_batch1 c hc hmb p i f L t pay h hfo.1 hfo.2 hroom1
       have hstep : (Eng.step c p (FOp.batch1 t pay).toOp).1 =
           { (batchAppendForTopic c p i t [pay]).1 with inst := some (batchAppendForTopic c p i t [pay]).2.1 } := by
         simp only [FOp.toOp, Eng.step, withInst, hi]
-      have hroom2 : (L1.length + (appendsOf r).length) * c.blockSize ≤ c.fileSize :=
+      have hroom2 : (L1.length + (appendsOf r).length + slack r) * c.blockSize ≤ c.fileSize :=
         Nat.le_trans (Nat.mul_le_mul_right _ (by simp only [List.length_cons] at *; omega)) hroom
       obtain ⟨i2, L2, hi2, h2, hlen2, hent2⟩ := ih (Eng.step c p (FOp.batch1 t pay).toOp).1 (batchAppendForTopic c p i t [pay]).2.1 L1
         (by rw [hstep]) (by rw [hstep]; exact diskInv_inst_irrelevant c _ _ _ f L1 h1)
-        (fun x hx => hf x (List.mem_cons_of_mem _ hx)) hroom2
+        (fun x hx => hf x (List.mem_cons_of_mem _ hx)) hbok' hroom2
       refine ⟨i2, L2, hi2, h2, by simp only [List.length_cons]; omega, ?_⟩
       intro t0
       rw [hent2 t0]
       by_cases e : t = t0
       · subst e; rw [hent]; simp [List.filter_cons]
       · rw [hoth t0 (fun x => e x.symm)]; simp [List.filter_cons, e]
+    | batch t ps =>
+      simp only [appendsOf, List.length_append, List.length_map, slack] at hf hroom ⊢
+      obtain ⟨hne, hcap, hbytes⟩ := hbok t ps List.mem_cons_self
+      have hlongt : t.long = false := by
+        cases ps with
+        | nil => exact absurd rfl hne
+        | cons a b => exact (hf (t, a) (by simp)).1
+      have hfit : ∀ q ∈ ps, c.metaSz + q.len ≤ c.blockSize := fun q hq =>
+        (hf (t, q) (List.mem_append_left _ (List.mem_map.mpr ⟨q, hq, rfl⟩))).2
+      have hroom1 : (L.length + (ps.length + 1)) * c.blockSize ≤ c.fileSize :=
+        Nat.le_trans (Nat.mul_le_mul_right _ (by omega)) hroom
+      obtain ⟨_, L1, h1, hlen1, hent, hoth⟩ := diskInv_batch c hc p i f L t ps h hlongt hne hfit hcap hbytes hroom1
+      have hstep : (Eng.step c p (FOp.batch t ps).toOp).1 =
+          { (batchAppendForTopic c p i t ps).1 with inst := some (batchAppendForTopic c p i t ps).2.1 } := by
+        simp only [FOp.toOp, Eng.step, withInst, hi]
+      have hsr : slack r ≤ 1 := by
+        have := slack_le (FOp.batch t []) r; simpa [slack] using this
+      have hroom2 : (L1.length + (appendsOf r).length + slack r) * c.blockSize ≤ c.fileSize :=
+        Nat.le_trans (Nat.mul_le_mul_right _ (by omega)) hroom
+      obtain ⟨i2, L2, hi2, h2, hlen2, hent2⟩ := ih (Eng.step c p (FOp.batch t ps).toOp).1 (batchAppendForTopic c p i t ps).2.1 L1
+        (by rw [hstep]) (by rw [hstep]; exact diskInv_inst_irrelevant c _ _ _ f L1 h1)
+        (fun x hx => hf x (List.mem_append_right _ hx)) hbok' hroom2
+      refine ⟨i2, L2, hi2, h2, by omega, ?_⟩
+      intro t0
+      rw [hent2 t0]
+      by_cases e : t = t0
+      · subst e
+        rw [hent, List.filter_append, List.map_append, List.append_assoc]
+        congr 1
+        congr 1
+        exact (filter_map_same t ps).symm
+      · rw [hoth t0 (fun x => e x.symm), List.filter_append, List.map_append]
+        have : (ps.map fun x => (t, x)).filter (fun x => decide (x.1 = t0)) = [] := by
+          simp [List.filter_eq_nil_iff, e]
+        rw [this]; rfl
     | next t cp =>
       simp only [appendsOf] at hf hroom ⊢
       have hstep : (Eng.step c p (FOp.next t cp).toOp).1 =
@@ -974,7 +1326,8 @@ theorem diskInv_execF (c : Cfg) (hc : CfgOK c) (hmb : c.blockSize ≤ c.maxBatch
         simp only [FOp.toOp, Eng.step, withInst, hi]
       exact ih _ (readNext c p i t cp).2.1 L (by rw [hstep])
         (by rw [hstep]; exact diskInv_inst_irrelevant c _ _ _ f L
-              (diskInv_of_same c p _ i _ f L (files_readNext c p i t cp) (wside_readNext c p i t cp) h)) hf hroom
+              (diskInv_of_same c p _ i _ f L (files_readNext c p i t cp) (wside_readNext c p i t cp) h)) hf hbok'
+        (Nat.le_trans (Nat.mul_le_mul_right _ (by simp only [slack] at *; omega)) hroom)
     | bread t m cp st =>
       simp only [appendsOf] at hf hroom ⊢
       have hstep : (Eng.step c p (FOp.bread t m cp st).toOp).1 =
@@ -982,32 +1335,37 @@ theorem diskInv_execF (c : Cfg) (hc : CfgOK c) (hmb : c.blockSize ≤ c.maxBatch
         simp only [FOp.toOp, Eng.step, withInst, hi]
       exact ih _ (batchRead c p i t m cp st).2.1 L (by rw [hstep])
         (by rw [hstep]; exact diskInv_inst_irrelevant c _ _ _ f L
-              (diskInv_of_same c p _ i _ f L (files_batchRead c p i t m cp st) (wside_batchRead c p i t m cp st) h)) hf hroom
+              (diskInv_of_same c p _ i _ f L (files_batchRead c p i t m cp st) (wside_batchRead c p i t m cp st) h)) hf hbok'
+        (Nat.le_trans (Nat.mul_le_mul_right _ (by simp only [slack] at *; omega)) hroom)
     | count t =>
       simp only [appendsOf] at hf hroom ⊢
       have hstep : (Eng.step c p (FOp.count t).toOp).1 = { p with inst := some i } := by
         simp only [FOp.toOp, Eng.step, withInst, hi]
-      exact ih _ i L (by rw [hstep]) (by rw [hstep]; exact diskInv_inst_irrelevant c _ _ _ f L h) hf hroom
+      exact ih _ i L (by rw [hstep]) (by rw [hstep]; exact diskInv_inst_irrelevant c _ _ _ f L h) hf hbok'
+        (Nat.le_trans (Nat.mul_le_mul_right _ (by simp only [slack] at *; omega)) hroom)
 
 /-- **Friendly programs are recovered.**  As `C06_friendly_append_programs_are_recovered`, with reads of both APIs
-(consuming or not, cursor-based or offset-addressed), count queries and single-entry batch appends (the call the
-data plane of distributed-walrus makes) anywhere in the program: they neither move
+(consuming or not, cursor-based or offset-addressed), count queries, single-entry batch appends (the call the
+data plane of distributed-walrus makes) and general batch appends of one-unit entries (non-empty, within the
+entry-count and byte limits; the planner of a general batch wants one block of room beyond what it uses - `slack`)
+anywhere in the program: they neither move
 nor damage what the appends laid out, so the recovery scan still registers exactly the appended entries, topic by
 topic, in order. -/
 theorem C06_friendly_programs_are_recovered (c : Cfg) (hc : CfgOK c) (hmb : c.blockSize ≤ c.maxBatchBytes)
     (p : Proc) (i : Inst) (f : Nat)
     (hi : p.inst = some i) (hinit : DiskInv c p i f []) (ops : List FOp) (hf : Friendly c (appendsOf ops))
-    (hroom : (appendsOf ops).length * c.blockSize ≤ c.fileSize) (s : ScanSt) :
+    (hbok : BatchesOK c ops)
+    (hroom : ((appendsOf ops).length + slack ops) * c.blockSize ≤ c.fileSize) (s : ScanSt) :
     ∃ L : List LBlock, (∀ t, entriesOf t L = ((appendsOf ops).filter (fun x => x.1 = t)).map (·.2)) ∧
       ∀ fuel, L.length < fuel →
         scanFile c f (fileCells (execF c p ops).files f) fuel 0 s = L.foldl (blockStep c f) s := by
-  obtain ⟨i', L, _, hL, hlen, hent⟩ := diskInv_execF c hc hmb f ops p i [] hi hinit hf (by simpa using hroom)
+  obtain ⟨i', L, _, hL, hlen, hent⟩ := diskInv_execF c hc hmb f ops p i [] hi hinit hf hbok (by simpa using hroom)
   refine ⟨L, by intro t; rw [hent t]; simp [entriesOf], ?_⟩
   intro fuel hfuel
   have hlaid := fileLaid_of_layout c hc.meta_pos hc.bs_pos _ L [] (by simpa using hL.lay) (by simpa using hL.stray)
     (by
       simp only [List.length_nil, Nat.zero_add]
-      exact Nat.le_trans (Nat.mul_le_mul_right _ (by simpa using hlen)) hroom)
+      exact Nat.le_trans (Nat.mul_le_mul_right _ (by simp at hlen; omega)) hroom)
   exact C06_scan_recovers_laid_file c hc.meta_pos f _ L 0 fuel s (by simpa using hlaid) hfuel
 
 /-! what the registered blocks mean for the reader chains -/
@@ -1079,6 +1437,30 @@ example : (scanFile smallCfg 0
         [(⟨0, false⟩, ⟨100, 1⟩), (⟨1, false⟩, ⟨200, 2⟩), (⟨0, false⟩, ⟨3700, 3⟩), (⟨0, false⟩, ⟨50, 4⟩)]).1.files 0)
       5 0 { trk := {}, inst := { dir := 0, mode := .strict } }).perTopic =
     [(⟨0, false⟩, [1, 1, 1]), (⟨1, false⟩, [1])] := by decide +kernel
+
+/-- a program with a three-entry batch that spills into a second block meets the hypotheses of
+`C06_friendly_programs_are_recovered`, and (evaluated) the scan finds the four entries of topic 0 in two blocks and
+the entry of topic 1 in its own -/
+def demoF : List FOp :=
+  [.batch ⟨0, false⟩ [⟨2000, 2⟩, ⟨2500, 3⟩], .next ⟨0, false⟩ true, .batch1 ⟨1, false⟩ ⟨7, 5⟩, .count ⟨0, false⟩]
+
+example : Friendly smallCfg (appendsOf demoF) ∧ BatchesOK smallCfg demoF ∧
+    ((appendsOf demoF).length + slack demoF) * smallCfg.blockSize ≤ smallCfg.fileSize := by
+  refine ⟨?_, ?_, by decide⟩
+  · intro x hx
+    simp only [demoF, appendsOf, List.map_cons, List.map_nil, List.cons_append, List.nil_append, List.mem_cons,
+      List.not_mem_nil, or_false] at hx
+    rcases hx with rfl | rfl | rfl <;> decide
+  · intro t ps h
+    simp only [demoF, List.mem_cons, FOp.batch.injEq, List.not_mem_nil, or_false, reduceCtorEq, false_or] at h
+    obtain ⟨rfl, rfl⟩ := h
+    decide
+
+example : (scanFile smallCfg 0
+      (fileCells (execF smallCfg { files := [{ dir := 0, name := 1, cells := [], present := true }], inst := some {} }
+        demoF).files 0)
+      5 0 { trk := {}, inst := { dir := 0, mode := .strict } }).perTopic =
+    [(⟨1, false⟩, [1]), (⟨0, false⟩, [1, 1])] := by decide +kernel
 
 /-- three entries laid out from the start of a block, a stale cell further on: the walk returns the three -/
 example : walkBlock smallCfg
